@@ -1,7 +1,7 @@
 (* ConfigRead.v -- C18 as non-interference: what a handler's response can depend on in the configuration.
 
    The configuration is the tree of Http.v (viper lookup).  Password paths are
-       sasl.<n>.password       (helpers/sarama.go: SASL profile)
+       sasl.<n>.password       (helpers/sarama.go: SASL profile; <n> may be dotted -- profiles nest -- see is_pw)
        notifier.<n>.password   (notifier/http.go basic-auth and notifier/email.go SMTP share the key)
    (no other password-like key is read anywhere in /repo/core: no TLS key passwords, no tokens).
 
